@@ -1,7 +1,7 @@
 (* C13 — comparison operators form a coherent algebra over values.
    Only pinned statements: each theorem is closed by `exact <lemma>`. *)
-From GV.Model Require Import Compare Operators.
-From GV.Proofs Require Import CompareProps.
+From GV.Model Require Import Compare Operators Erase.
+From GV.Proofs Require Import CompareProps ErasePure.
 
 Theorem C13_trichotomy : forall a b,
   ordered_pair a b ->
@@ -96,3 +96,13 @@ Theorem C13_unordered_types_never_ordered : forall a b,
   compare_gt a b = Err ENotComparable /\ compare_ge a b = Err ENotComparable.
 Proof. exact unordered_types_never_ordered. Qed.
 Print Assumptions C13_unordered_types_never_ordered.
+
+(* the comparisons do not look at where a value was written: the whole operator layer commutes with the erasure of paths *)
+Theorem C13_comparisons_are_path_blind : forall re c lhs rhs,
+  cmp_compare re c (map er_q lhs) (map er_q rhs) = omap er_eres (cmp_compare re c lhs rhs).
+Proof. exact comparisons_are_path_blind. Qed.
+Print Assumptions C13_comparisons_are_path_blind.
+
+Theorem C13_equality_is_path_blind : forall re a b, compare_eq re (er a) (er b) = compare_eq re a b.
+Proof. exact compare_eq_er. Qed.
+Print Assumptions C13_equality_is_path_blind.
